@@ -238,13 +238,13 @@ def build_h4(I=1):
 
 def specs(tier):
     out = [
-        Spec("h2_storage_read", build_h2(2), cfg=ic.cfg(N), unwind=N + 2, timeout=900,
+        Spec("h2_storage_read", build_h2(2), cfg=ic.cfg(N), unwind=N + 2, timeout=2700,
              desc="real IncarnationDb::storage over an arbitrary multi-version memory below the reader (2 addresses x 2 slots, 2 lower txs)",
              bounds={"n": N, "addresses": A, "slots": SL}),
-        Spec("h3_publish", build_h3(1), cfg=ic.cfg(2), unwind=max(A, SL) + 3, timeout=900,
+        Spec("h3_publish", build_h3(1), cfg=ic.cfg(2), unwind=max(A, SL) + 3, timeout=2700,
              desc="real finish_incarnation/publish_writes/FinalizedAccount::from over an arbitrary journal state (2 accounts x 2 slots, all status flag bytes)",
              bounds={"n": N, "addresses": A, "slots": SL}),
-        Spec("h4_roundtrip", build_h4(1), cfg=ic.cfg(2), unwind=max(A, SL) + 3, timeout=900,
+        Spec("h4_roundtrip", build_h4(1), cfg=ic.cfg(2), unwind=max(A, SL) + 3, timeout=2700,
              desc="publish by tx 1 then storage() by tx 2 on every slot of the account", bounds={"n": N, "addresses": A, "slots": SL}),
     ]
     return out
